@@ -103,6 +103,8 @@ CliInit == [status |-> "Disconnected", updTick |-> 0, ents |-> EmptyFn, buf |-> 
             pre |-> EmptyFn,        \* entities the client spawned in advance: name |-> alive
             preUsed |-> {},         \* pre-spawned entities the server has already mapped (one mapping each)
             extra |-> 0,            \* replicated client entities that are not in the entity map
+            mt |-> EmptyFn,         \* ServerMutateTicks: tick |-> number of mutate messages of that tick processed
+            notif |-> <<>>,         \* MutateTickReceived notifications fired by the last client frame
             lastNotDisc |-> FALSE, panicked |-> FALSE]
 
 InitState ==
@@ -523,10 +525,12 @@ ApplyMutates(cs) ==
         step(acc, b) ==
             IF ready(b)
             THEN [acc EXCEPT !.ents = ApplyMutate(@, b), !.done = Append(@, b),
+                             !.mt = IF Track THEN With(@, b.tick, Get(@, b.tick, 0) + 1) ELSE @,
+                             !.notif = IF Track /\ Get(acc.mt, b.tick, 0) + 1 = b.cnt THEN Append(@, b.tick) ELSE @,
                              !.acked = IF Impl.ackDiscarded \/ ~Rejected(acc.ents, b) THEN Append(@, b.idx) ELSE @]
             ELSE [acc EXCEPT !.keep = Append(@, b)]
-        r == FoldSeq(step, [ents |-> cs.ents, keep |-> <<>>, done |-> <<>>, acked |-> <<>>], cs.buf)
-    IN [cs |-> [cs EXCEPT !.ents = r.ents, !.buf = r.keep], done |-> r.done, acked |-> r.acked]
+        r == FoldSeq(step, [ents |-> cs.ents, keep |-> <<>>, done |-> <<>>, acked |-> <<>>, mt |-> cs.mt, notif |-> <<>>], cs.buf)
+    IN [cs |-> [cs EXCEPT !.ents = r.ents, !.buf = r.keep, !.mt = r.mt, !.notif = r.notif], done |-> r.done, acked |-> r.acked]
 
 CliFrameConnected(st, c, cs2) ==
     LET rx == st.net[c].rxMut
@@ -547,7 +551,8 @@ CliFrameF(st, c) ==
         disc == cs0.status = "Disconnected"
         justDisc == cs0.lastNotDisc /\ disc
         cs1 == [cs0 EXCEPT !.lastNotDisc = ~disc]
-        cs2 == IF justDisc THEN [cs1 EXCEPT !.updTick = 0, !.ents = EmptyFn, !.buf = <<>>] ELSE cs1
+        cs2a == IF justDisc THEN [cs1 EXCEPT !.updTick = 0, !.ents = EmptyFn, !.buf = <<>>, !.mt = EmptyFn] ELSE cs1
+        cs2 == [cs2a EXCEPT !.notif = <<>>]
     IN IF cs2.status # "Connected" THEN [st EXCEPT !.cli[c] = cs2]
        ELSE Then(cs2, LAMBDA x : CliFrameConnected(st, c, x))
 
